@@ -13,7 +13,8 @@ const TEMPLATES: &[(&str, &str)] = &[
     ("a", "<import src=\"b\"/><import src=\"lib/e\"/><template is=\"t\" data=\"{{x, y}}\"/><view class=\"{{p}}\" id=\"{{q}}\" data-r=\"{{r}}\" hidden=\"{{p}}\">{{s}}{{zeta}}{{alpha}}</view>"),
     ("b", "<template name=\"t\"><x>{{x}}{{y}}</x></template><include src=\"c\"/><y a=\"{{k1}}\" b=\"{{k2}}\" c=\"{{k3}}\"/>"),
     ("c", "<wxs module=\"m\">exports.f=function(){return 1}</wxs><c><v slot:u slot:w slot:aa>{{u}}{{w}}{{aa}}{{m.f()}}</v></c>{{f1}}{{f2}}"),
-    ("d", "<wxs module=\"n\" src=\"s1.wxs\"/><wxs module=\"o\" src=\"lib/s2\"/>{{n.g}}{{p1}}{{p2}}{{p3}}{{p4}}"),
+    // ("B" and "b" differ only in case: an order that folds case would leave their relative order to the hash map)
+    ("B", "<wxs module=\"n\" src=\"s1.wxs\"/><wxs module=\"o\" src=\"lib/s2\"/>{{n.g}}{{p1}}{{p2}}{{p3}}{{p4}}"),
     ("lib/e", "<template name=\"t\">E{{x}}</template><template name=\"u\">{{y}}</template><z wx:for=\"{{list}}\" wx:key=\"id\">{{item.v}}{{g1}}</z>"),
     ("lib/f", "<import src=\"/a\"/><w bind:tap=\"h\" model:v=\"{{mv}}\" change:p=\"{{cp}}\">{{t1}}{{t2}}{{t3}}</w>"),
 ];
